@@ -78,8 +78,8 @@ def gen_median(ctx):
                 if not median_valid(cfg, sh, ks):
                     continue
                 arrays = list(itertools.product((0, 1), repeat=cells))
-                # quick: all arrays up to 3 voxels, 32 sampled ones beyond; thorough: all up to 6 voxels, 64 sampled beyond
-                cap = 32 if quick else 64
+                # quick: all arrays up to 3 voxels, 32 sampled ones beyond; thorough: all up to 5 voxels, 40 sampled beyond
+                cap = 32 if quick else 40
                 if len(arrays) > cap:
                     arrays = rng.sample(arrays, cap)
                 for vals in arrays:
@@ -129,7 +129,7 @@ def gen_pillar(ctx):
                     for ax, sh in PILLAR_AXSHAPES_Q if quick else PILLAR_AXSHAPES_T:
                         cells = sh[0] * sh[1] * sh[2]
                         arrays = list(itertools.product(grid3 if cells <= 3 else grid4, repeat=cells))
-                        cap = 20 if quick else 40
+                        cap = 20 if quick else 24
                         if len(arrays) > cap:
                             arrays = rng.sample(arrays, cap)
                         for vals in arrays:
